@@ -7,7 +7,7 @@ import time
 
 VERIF = os.path.dirname(os.path.dirname(os.path.abspath(__file__)))
 REPO = os.environ.get('VERIF_REPO', '/repo')
-TARGET = os.path.join(VERIF, '.build', 'kani-target')
+TARGET = os.path.join(os.environ.get('VERIF_BUILD') or os.path.join(VERIF, '.build'), 'kani-target')
 
 
 def _env(profile):
